@@ -1497,7 +1497,10 @@ class C16(Property):
             'monitor only); losses during which a CLOSED / SessionDestroyed listener of the application stays '
             'suspended while the watchdog ticks and reconnects, the application reconnects (connect_server + login), '
             'commands and stop() are issued, then the listener returns; CLOSED listeners that reconnect and log in '
-            'inside the event, each close reason; '
+            'inside the event, each close reason; monitor-only glue families: the loss noticed by a write of the '
+            'keep-alive (5 min) / the wishlist job on a transport that is still open / already gone (wait_closed() does '
+            'not suspend), a slow SessionInitialized listener of the application with loss + reconnect before login() '
+            'resumes, 1..4 established incoming peer connections at stop(); '
             'a case is non-trivial when a session was initialised AND (a loss other than by stop() '
             'occurred OR work was pending at stop() OR a login variant other than accepted was used OR a login was '
             'interrupted OR a listener was suspended); distinct = distinct canonical case')
@@ -1505,7 +1508,8 @@ class C16(Property):
         'asyncio / CPython semantics are exercised, not modelled; FakeNet stands in for TCP (close feeds EOF to both '
         'readers, reset makes reads and writes fail), SimLoop for time',
         'peers are unreachable (the connect neither completes nor is refused before its timeout; in two directed '
-        'cases the peer would accept 4 s later, after stop()); no established peer connection; UPnP disabled',
+        'cases the peer would accept 4 s later, after stop()); established peer connections only in the glue-peers '
+        'family (incoming, type P, idle); UPnP disabled',
         'the scripted server answers every AddUser at once (no tracking retries) and sends nothing unsolicited',
         'close reasons TIMEOUT and UNKNOWN are injected by calling ServerConnection.disconnect(reason), the call '
         'DataConnection._read/_send make on that path; EOF, READ_ERROR, WRITE_ERROR, REQUESTED, CONNECT_FAILED arise '
